@@ -17,7 +17,7 @@ SYMS = [{"k": "c", "v": "a"}, {"k": "c", "v": "b"}, {"k": "c", "v": "c"}, {"k": 
 
 
 def random_table(rnd: random.Random) -> list[dict]:
-    alphabet = "abcdeXYZ .!?"
+    alphabet = list("abcdeXYZ .!?") + ["<e1>", "<e2>", "<e3>"]      # placeholders of non-ASCII characters (drivers.PLACEHOLDER)
     n = rnd.choice([2, 3, 5, 8, 12])
     used_codes = set()
     ents = []
@@ -33,7 +33,7 @@ def random_table(rnd: random.Random) -> list[dict]:
 
 
 def random_string(rnd: random.Random) -> list[dict]:
-    alphabet = "abcdeXYZ .!?qw"
+    alphabet = list("abcdeXYZ .!?qw") + ["<e1>", "<e2>", "<e3>"]
     out = []
     for _ in range(rnd.choice([0, 1, 3, 6, 12, 25])):
         if rnd.random() < 0.1:
@@ -84,7 +84,7 @@ def run(ctx) -> None:
         org = 0x008000 if k % 3 else 0x00FFFE   # some programs run across a bank end
         # the two table files swap their contents from one program to the next (one path, different tables, one process)
         tabs = v["tables"] if (k // 2) % 2 == 0 else list(reversed(v["tables"]))
-        ptasks.append({"items": v["items"], "tables": tabs, "org": org, "scope_style": "block" if k % 2 else "named"})
+        ptasks.append({"items": v["items"], "tables": tabs, "org": org, "scope_style": ("block", "named", "macro")[k % 3]})
     pres = pool.map("table_program", ptasks, timeout=60)
     for k, (t, o) in enumerate(zip(ptasks, pres)):
         if o.get("hang") or o.get("driver_error"):
